@@ -863,18 +863,24 @@ class Tr:
         """a loop whose spec section is `@loop N` with lines `cut-havoc: a, b` and `cut-invariant: EXPR` is replaced by the
         assume/assert encoding of the Hoare loop rule (base case, arbitrary iteration, invariant re-established)"""
         sp = self.spec.get('loop %d' % self.loopn, [])
-        hv, inv = [], []
+        hv, inv, prop = [], [], []
         for l in sp:
             l = l.strip()
             if l.startswith('cut-havoc:'):
                 hv += [x.strip() for x in l[len('cut-havoc:'):].split(',') if x.strip()]
             elif l.startswith('cut-invariant:'):
                 inv.append(l[len('cut-invariant:'):].strip())
-        if not inv and not hv:
+            elif l.startswith('cut-property:'):
+                # an invariant that IS the property (a record invariant of the object being built): `text :: expression`
+                t, _, e = l[len('cut-property:'):].partition('::')
+                prop.append((t.strip(), e.strip()))
+        if not inv and not hv and not prop:
             return None
         k = self.loopn
         self.loopn += 1
-        return k, hv, ' && '.join('(%s)' % x for x in inv) or '1'
+        self.cut_props = getattr(self, 'cut_props', {})
+        self.cut_props[k] = prop
+        return k, hv, ' && '.join('(%s)' % x for x in inv + [e for _, e in prop]) or '1'
 
     def cut_prologue(self, k, hv, inv, ind):
         self.emit('/* loop %d cut: base case, then one arbitrary iteration from an arbitrary state satisfying the invariant */' % k, ind)
@@ -884,6 +890,8 @@ class Tr:
         self.emit('__CPROVER_assume(%s);' % inv, ind)
 
     def cut_epilogue(self, k, inv, ind):
+        for t, e in getattr(self, 'cut_props', {}).get(k, []):
+            self.emit('__CPROVER_assert(%s, "postcondition: %s (record invariant kept by every iteration of loop %d of %s)");' % (e, t.replace('"', "'"), k, self.cname), ind)
         self.emit('__CPROVER_assert(%s, "loop %d of %s: invariant preserved by an arbitrary iteration");' % (inv, k, self.cname), ind)
         self.emit('__CPROVER_assume(0);', ind)
 
